@@ -147,7 +147,13 @@ func c04workload(c *Check, rng *rand.Rand, env *Env, cf c04cfg, phase string) {
 	}
 	mk := func(name string, slot int) []byte {
 		var key []byte
-		if rng.Intn(3) == 0 {
+		if rng.Intn(8) == 0 {
+			// brace-hostile shapes (the slot is whatever the reference says)
+			tok := newToken("k")
+			shapes := []string{"{}" + tok, "obj{}:" + tok, "a{}b{" + SlotTag(slot) + "}" + tok, "}{" + SlotTag(slot) + "}" + tok, "{" + tok, tok + "}", "{{" + SlotTag(slot) + "}}" + tok,
+				"{" + SlotTag(slot) + "}{" + tok + "}", "x}y{" + SlotTag(slot) + "}" + tok, "{}{" + SlotTag(slot) + "}" + tok}
+			key = []byte(shapes[rng.Intn(len(shapes))])
+		} else if rng.Intn(3) == 0 {
 			// plain key landing in slot: search
 			for tries := 0; ; tries++ {
 				k := []byte(fmt.Sprintf("plain:%d:%d", slot, rng.Intn(1<<30)))
